@@ -227,7 +227,7 @@ fn unit_line(u: &Unit, tag: &str) -> String {
         u.colon as u8,
         u.query as u8,
         u.fault,
-        if u.mnems.is_empty() { "-".to_string() } else { u.mnems.join(",") },
+        if u.mnems.is_empty() { "-".to_string() } else { u.mnems.iter().map(|m| m.replace('%', "%25").replace(' ', "%20").replace('\t', "%09")).collect::<Vec<_>>().join(",") },
         if u.args.is_empty() { "-".to_string() } else { u.args.iter().map(|a| hex(a)).collect::<Vec<_>>().join(",") },
         match &u.raw {
             Some(r) => format!("x{}", hex(r)),
@@ -243,7 +243,7 @@ fn kv(line: &str) -> BTreeMap<&str, &str> {
 fn parse_unit(line: &str) -> Result<Unit, String> {
     let m = kv(line);
     let g = |k: &str| m.get(k).copied().ok_or(format!("unit line lacks {k}: {line}"));
-    let mnems = if g("mnems")? == "-" { vec![] } else { g("mnems")?.split(',').map(|s| s.to_string()).collect() };
+    let mnems = if g("mnems")? == "-" { vec![] } else { g("mnems")?.split(',').map(|s| s.replace("%20", " ").replace("%09", "\t").replace("%25", "%")).collect() };
     let args = if g("args")? == "-" {
         vec![]
     } else {
